@@ -66,6 +66,11 @@ class Response(object):
 
 def _scratch_dir():
     base = '/dev/shm' if os.access('/dev/shm', os.W_OK) else None
+    # the driver hands its workers one parent directory, which it removes
+    # when it is done (workers are terminated, not asked to exit)
+    parent = os.environ.get('PSIM_SCRATCH_PARENT')
+    if parent and os.path.isdir(parent):
+        base = parent
     d = tempfile.mkdtemp(prefix='psim-', dir=base)
     pid = os.getpid()
 
